@@ -53,6 +53,19 @@ theorem destroyed_tlog (os : List (List Obs)) : destroyed (tlog os) = (destroyed
 theorem armed_tlog (os : List (List Obs)) : armed (tlog os) = (armed os.flatten).reverse := by
   rw [tlog, armed_tobs, armed_reverse]
 
+theorem nodup_of_reverse {l : List Nat} (h : l.reverse.Nodup) : l.Nodup := by
+  have := nodup_reverse' h
+  rwa [List.reverse_reverse] at this
+
+theorem count_eq_one {l : List Nat} (hn : l.Nodup) {t : Nat} (ht : t ∈ l) : l.count t = 1 := by
+  rw [hn.count]; simp [ht]
+
+theorem sum_eq_zero_of_all {l : List Nat} (h : ∀ n ∈ l, n = 0) : l.sum = 0 := by
+  induction l with
+  | nil => rfl
+  | cons a t ih =>
+    rw [List.sum_cons, h a List.mem_cons_self, ih (fun n hn => h n (List.mem_cons_of_mem _ hn))]
+
 theorem rsS_addLog (s : State) (a b : List Obs) : (rsS s a).addLog b = rsS s (a ++ b) := rfl
 
 /-! ## the unconditional ledger -/
